@@ -36,3 +36,12 @@ claim("C17",
       "orderedness and set algebra over values are value-level and not decided.",
       "Trusted: rustc MIR; the contract tables in rules/c17.py; pairs with C08 (comparison) and C10 (key loops).",
       "DESIGN.md §2 C17")
+claim("C02",
+      "MIR finite-domain decision tables of operator typing and receiver dispatch vs the Jsonnet specification",
+      "Decides only the type-error clause of C02 ('when the specification makes the program fail [for a type reason], evaluation fails', and "
+      "conversely): (R1) the 19x7x7 binary-operator typing table, (R1b) each numeric operator applies its own machine operation, (R2) the 4x7 "
+      "unary table, (R3) receiver/condition dispatch of index, field, call, if, assert, comprehension sources, computed field names, super "
+      "index and `in super`, each exhaustively over operand variants and CFG paths. The values programs evaluate to are NOT decided: no "
+      "reference semantics is in reach of static analysis.",
+      "Trusted: rustc MIR; Jsonnet specification typing table transcribed in rules/c02.py. Value-level semantics stay with the repository's tests.",
+      "DESIGN.md §2 C02")
